@@ -396,6 +396,7 @@ func drive(t *testing.T, p *PropDef) {
 			os.WriteFile(out+".current", b, 0644)
 		}
 		o := p.Run(t, sc)
+		core.Progress.Add(1) // a finished evaluation is progress too (worlds without a scheduler)
 		evalN++
 		if traceF != nil {
 			fmt.Fprintf(traceF, "%d %d %q %d\n", evalN, o.LogHash, o.Violation, o.Steps)
@@ -405,7 +406,7 @@ func drive(t *testing.T, p *PropDef) {
 			res.DetRechecked++
 			if o2.LogHash != o.LogHash || o2.Violation != o.Violation {
 				res.DetMismatches++
-				fmt.Fprintf(os.Stderr, "DETERMINISM MISMATCH property=%s: %d/%q vs %d/%q\n", p.ID, o.LogHash, o.Violation, o2.LogHash, o2.Violation)
+				fmt.Fprintf(os.Stderr, "DETERMINISM MISMATCH property=%s: %d/%q vs %d/%q (harness trouble of the re-run: %q)\n", p.ID, o.LogHash, o.Violation, o2.LogHash, o2.Violation, o2.Harness)
 				if os.Getenv("VERIF_DETDIFF") != "" {
 					for i := 0; i < len(o.Log) || i < len(o2.Log); i++ {
 						a, b := "<end>", "<end>"
@@ -437,6 +438,7 @@ func drive(t *testing.T, p *PropDef) {
 
 	if p.Fixed != nil && (worker == 0 || p.FixedAllWorkers) {
 		p.Fixed(t, func(sc interface{}, o *Outcome) {
+			core.Progress.Add(1)
 			account(sc, o, false)
 			if o.Violation != "" {
 				if k := matchKnown(known, o); k != nil {
